@@ -10,6 +10,7 @@
 # NFV_TARGET=<dir> build output directory (default /verif/target).
 set -u
 export CARGO_NET_OFFLINE=true
+ORIG_PWD="$PWD"
 cd /verif/harness || exit 2
 TARGET="${NFV_TARGET:-/verif/target}"
 export NFV_TARGET="$TARGET"
@@ -57,8 +58,20 @@ case "${1:-}" in
     # thorough tier: coverage-guided campaign with the property's oracle in the target
     if [ $CODE -eq 0 ] && [ "$TIER" = thorough ] && [ -z "${NFV_REPO:-}" ]; then
       case "$ID" in
-        C01|C02|C09|C10|C12|C16)
-          /verif/tools/fuzz_phase.sh "$ID" "${NFV_FUZZ_RUNS:-3000000}" 16
+        C01|C02|C12)
+          /verif/tools/fuzz_phase.sh "$ID" "${NFV_FUZZ_RUNS:-3000000}" 16 fuzz_history
+          CODE=$?
+          ;;
+        C09|C10|C16)
+          /verif/tools/fuzz_phase.sh "$ID" "${NFV_FUZZ_RUNS:-3000000}" 16 fuzz_history
+          CODE=$?
+          if [ $CODE -eq 0 ]; then
+            /verif/tools/fuzz_phase.sh "$ID" "${NFV_FUZZ_PLAN_RUNS:-1000000}" 16 fuzz_plan
+            CODE=$?
+          fi
+          ;;
+        C04|C05|C06|C11|C14)
+          /verif/tools/fuzz_phase.sh "$ID" "${NFV_FUZZ_PLAN_RUNS:-1000000}" 16 fuzz_plan
           CODE=$?
           ;;
       esac
@@ -67,7 +80,9 @@ case "${1:-}" in
     ;;
   replay)
     ID="$2"; FILE="$3"
+    case "$FILE" in /*) ;; *) FILE="$ORIG_PWD/$FILE";; esac
     build_release || exit 2
+    if [ "$ID" = "C01" ]; then build_o0 || exit 2; fi
     "$TARGET/release/check" "$ID" --replay "$FILE"
     exit $?
     ;;
